@@ -23,6 +23,39 @@ pub enum Seed {
     /// hand-built file: a prototype of `records` full-range integer records and a section that consists of `packets`
     /// ignored packets of the minimum size (4 bytes) and no data packet
     TinyPackets { records: u32, packets: u32 },
+    /// hand-built file without point clouds whose root element declares `on_root` namespaces and contains `leaves`
+    /// empty elements that declare one more each; attributes are separated by the white space character number `sep`
+    /// (space, line feed, tab, carriage return)
+    ManyNamespaces { on_root: u16, leaves: u32, sep: u8 },
+}
+
+/// See `Seed::ManyNamespaces`.
+pub fn many_namespaces_file(on_root: usize, leaves: usize, sep: u8) -> Vec<u8> {
+    let sp = [' ', '\n', '\t', '\r'][sep as usize % 4];
+    let mut xml = String::from("<?xml version=\"1.0\" encoding=\"UTF-8\"?>\n<e57Root type=\"Structure\" xmlns=\"http://www.astm.org/COMMIT/E57/2010-e57-v1.0\"");
+    for i in 0..on_root {
+        xml.push(sp);
+        xml.push_str(&format!("xmlns:p{i}=\"urn:verif:ns:{i}\""));
+    }
+    xml.push_str(">\n<formatName type=\"String\"><![CDATA[ASTM E57 3D Imaging Data File]]></formatName>\n<guid type=\"String\"><![CDATA[{many-namespaces}]]></guid>\n<versionMajor type=\"Integer\">1</versionMajor>\n<versionMinor type=\"Integer\">0</versionMinor>\n<data3D type=\"Vector\" allowHeterogeneousChildren=\"1\"/>\n<images2D type=\"Vector\" allowHeterogeneousChildren=\"1\"/>\n");
+    for _ in 0..leaves {
+        xml.push_str("<p0:a");
+        xml.push(sp);
+        xml.push_str("xmlns:q=\"u\"/>");
+    }
+    xml.push_str("</e57Root>\n");
+    let xml_log = 48u64;
+    let total_log = xml_log + xml.len() as u64;
+    let pages_n = (total_log + 1019) / 1020;
+    let mut log = vec![0u8; 48];
+    log[0..8].copy_from_slice(b"ASTM-E57");
+    log[8..12].copy_from_slice(&1u32.to_le_bytes());
+    log[16..24].copy_from_slice(&(pages_n * 1024).to_le_bytes());
+    log[24..32].copy_from_slice(&pages::log_to_phys(xml_log).to_le_bytes());
+    log[32..40].copy_from_slice(&(xml.len() as u64).to_le_bytes());
+    log[40..48].copy_from_slice(&1024u64.to_le_bytes());
+    log.extend_from_slice(xml.as_bytes());
+    pages::page(&log)
 }
 
 /// See `Seed::TinyPackets`.
@@ -177,6 +210,7 @@ pub fn seed_bytes(s: &Seed) -> Result<Vec<u8>, String> {
         Seed::Encoded { scene, layout } => encode(&build_scene(scene), layout).map(|e| e.bytes),
         Seed::Bundled(n) => crate::preflight::bundled(n),
         Seed::ConstHeavy { consts, points } => Ok(const_heavy_file(*consts as usize, (*points as usize).min(440_000))),
+        Seed::ManyNamespaces { on_root, leaves, sep } => Ok(many_namespaces_file((*on_root as usize).min(5000), (*leaves as usize).min(300_000), *sep)),
         Seed::TinyPackets { records, packets } => Ok(tiny_packets_file((*records as usize).min(30_000), (*packets as usize).min(8_000_000))),
     }
 }
@@ -720,7 +754,7 @@ fn apply_mut(img: &mut Img, m: &Mut) {
 /// Apply a mutation script; the result need not be a valid file.
 pub fn mutate(sc: &Script) -> Result<Vec<u8>, String> {
     let seed = seed_bytes(&sc.seed)?;
-    if matches!(sc.seed, Seed::ConstHeavy { .. } | Seed::TinyPackets { .. }) {
+    if matches!(sc.seed, Seed::ConstHeavy { .. } | Seed::TinyPackets { .. } | Seed::ManyNamespaces { .. }) {
         // used as it is (decoding it with the reference decoder would itself need gigabytes)
         return Ok(seed);
     }
